@@ -1,5 +1,6 @@
 #!/bin/bash
-# usage: seeded_eval.sh <patch.diff> <check-id> [extra args]  -- apply a seeded change to /repo, run one check (quick) into a scratch evidence dir, undo.
+# usage: seeded_eval.sh <patch.diff (absolute path)> <check-id> [extra args]  -- apply a seeded change to /repo, run one check (quick) into a scratch evidence dir, undo.
+# With CORPUS=<name>: the smallest minimised replay of the run is kept as /verif/corpus/<check-id>/<name>.json (replayed by every later run of that check).
 P=$1; C=$2; shift 2
 S=$(mktemp -d)
 git -C /repo apply $P || { echo "APPLY-FAILED"; exit 2; }
@@ -8,5 +9,9 @@ git -C /repo checkout -- .
 echo "check=$C exit=$rc $(grep -c '^VIOLATION' $S/out.txt) violation line(s)"
 grep -A3 '^VIOLATION' $S/out.txt | grep -E "oracle=|^  [a-zA-Z]" | head -4 | cut -c1-260
 grep -E "HARNESS|KNOWN" $S/out.txt | head -3 | cut -c1-200
+if [ -n "$CORPUS" ] && [ -d $S/rp/$C ]; then
+  f=$(ls -S -r $S/rp/$C/*.json 2>/dev/null | head -1)
+  if [ -n "$f" ]; then mkdir -p /verif/corpus/$C; cp $f /verif/corpus/$C/$CORPUS.json; echo "corpus: $CORPUS.json"; fi
+fi
 rm -rf $S
 exit 0
